@@ -23,7 +23,9 @@ EXPLANATION = (
     "checker does with stubs; finds removed aliases such as np.int), (R2) branch-shape analysis of "
     "the order generator: every (type, dim) branch appends rows of the right literal width and "
     "returns the rank-2 row array, (R3) agreement of the moment-type dispatch between Grid.moments "
-    "and the order generator.  Necessary for 'Cartesian moments work in one, two and three "
+    "and the order generator, (R4/R5) dimension-generic Cartesian code and moment shapes for 1-3 "
+    "dimensions, (R6) the rows of every branch of the order generator, evaluated into a symbolic stream "
+    "term, equal the documented Horton order as terms (for every `order`).  Necessary for 'Cartesian moments work in one, two and three "
     "dimensions' and for 'the returned order list names the rows'.  NOT decided: that each entry "
     "equals the quadrature of its integrand (numerical).")
 RULE = "one instance per third-party attribute reference, per (type, dim) branch, per dispatch key"
